@@ -90,3 +90,9 @@ claim("C06", "other",
       "Magic constants validated completely against an independent geometric oracle (all 128 entries, all 107,648 blocker subsets: index width, row bound, no destructive collision), plus structural rules tying them to the code: reader and writer compute the same index over the same tables, masks drop exactly the far edge, the slow ray walk blocks each direction with the right scan, leaper initialisers normalise to exactly the rule steps with exactly the wrapping files masked, queen = rook | bishop, Kind dispatch and all_pieces occupancy. Exhaustive over squares and occupancies for the table scheme, which sampled slider tests cannot be.",
       "conditional on rays[sq][d] being the geometric ray and get_blockers_from_index enumerating the subsets of its mask (value-level loops, not decided).",
       "static analysis: constants extracted from the type-checked program vs geometric oracle + symbolic normalisation of initialiser expressions", "DESIGN.md section 3 C06")
+
+
+claim("C07", "other",
+      "Tables extracted from the MIR of the FEN reader and the builders compared with the FEN standard and with each other: the 12 piece letters, one (kind, colour) <-> bitboard bijection across setters / add / remove / count / lookup / build / recompute and both hard-coded start positions, the order and defaults of the six FEN fields, the castling and side letters, the en-passant letter decoding, the synthetic history record (rights, clock, double-push flag on the en-passant file, which is what make/unmake read back), and a build that copies every field and computes the key last. These decide every table a FEN family would have to probe.",
+      "the rank/file arithmetic of the placement mask and digit skipping are value-level and not decided.",
+      "static analysis: decision-table extraction from rustc MIR vs FEN-standard oracle; sibling-table agreement", "DESIGN.md section 3 C07")
